@@ -888,6 +888,18 @@ func (c *Ctx) execGo(s *State, x *ssa.Go) {
 			gev.addCaptured(ci)
 		}
 	}
+	// closures (bound methods) handed to the goroutine: what they captured is used by the event too
+	for _, a := range args {
+		if sc, ok := a.(Sc); ok {
+			if ci, ok := c.eng.closures[sc.T.S]; ok {
+				gev.addCaptured(ci)
+			}
+		}
+	}
+	if x.Call.IsInvoke() {
+		gev.Recv = c.val(s, x.Call.Value)
+		gev.RecvT = x.Call.Value.Type()
+	}
 	s.trace = append(s.trace, gev)
 	if fc := c.contractFor(name); fc != nil && callee != nil && c.inContext[fc.Key] && len(callee.Blocks) > 0 && c.scout == 0 {
 		// the goroutine's own rules, decided with the bindings it is spawned with: it starts from the
